@@ -382,8 +382,8 @@ pub fn run(args: &[String]) -> ! {
     let more = tier == Tier::Thorough;
     let set = corpus::base_docs(depth, reps, pairs);
     let subs = corpus::substitutes();
-    let subs_small = corpus::substitutes_small();
-    let scope = c12::tight_scope(tier, &subs_small);
+    // (every document of this check's corpus gets the full substitute set, hence the full tight rendering, in both tiers)
+    let scope = c12::tight_scope(tier, true);
     let parts: Vec<Stats> = set
         .docs
         .par_chunks(32)
@@ -506,7 +506,7 @@ pub fn run(args: &[String]) -> ! {
             set.docs.len(),
             files.len(),
             subs.len(),
-            c12::tight_rule(scope),
+            c12::tight_rule(None),
             if more { " and `*`, LF, `%`, `@`, `é`" } else { "" },
             FAMILIES.len()
         )),
